@@ -91,6 +91,8 @@ fn gen_labels(rng: &mut Rng, n: usize) -> Vec<usize> {
 
 fn run_comb(seed: u64, count: usize, maxn: usize, out: &mut impl Write) {
     let mut rng = Rng::new(seed ^ 0xC17C);
+    // a few cases large enough for the parallel sorts to split the work
+    let big_period = (count / (3 + count / 1500)).max(8);
     for i in 0..count {
         let dir = tempfile::Builder::new().prefix("wgverif-llpc").tempdir().unwrap();
         // sizes: mostly small, a few large enough for the parallel sort to split
@@ -99,9 +101,9 @@ fn run_comb(seed: u64, count: usize, maxn: usize, out: &mut impl Write) {
             1 => 2,
             2..=11 => rng.range(1, 12),
             12..=17 => rng.range(1, maxn.max(1)),
-            18 => rng.range(maxn, 4 * maxn.max(1)),
-            _ => if i % 40 == 7 { rng.range(2000, 6000) } else { rng.range(1, maxn.max(1)) },
+            _ => rng.range(maxn, 4 * maxn.max(1)),
         };
+        let n = if i % big_period == 7 { rng.range(2000, 4000) } else { n };
         let m = match rng.below(10) { 0..=2 => 1, 3..=5 => 2, 6..=7 => 3, 8 => rng.range(4, 6), _ => rng.range(1, 9) };
         let m = if n > 1000 { m.min(3) } else { m };
         let mut fam: Vec<Vec<usize>> = (0..m).map(|_| gen_labels(&mut rng, n)).collect();
@@ -154,14 +156,16 @@ fn run_comb(seed: u64, count: usize, maxn: usize, out: &mut impl Write) {
 
 fn run_ranks(seed: u64, count: usize, maxn: usize, out: &mut impl Write) {
     let mut rng = Rng::new(seed ^ 0x4A2C);
+    let big_period = (count / (3 + count / 1500)).max(8);
     for i in 0..count {
         let n = match rng.below(20) {
             0 => 0,
             1 => 1,
             2..=12 => rng.range(1, 12),
             13..=18 => rng.range(1, maxn.max(1)),
-            _ => if i % 50 == 3 { rng.range(2000, 8000) } else { rng.range(maxn, 4 * maxn.max(1)) },
+            _ => rng.range(maxn, 4 * maxn.max(1)),
         };
+        let n = if i % big_period == 3 { rng.range(2000, 5000) } else { n };
         // labels need not be node identifiers here
         let mut labels = gen_labels(&mut rng, n);
         if rng.chance(1, 4) { for l in labels.iter_mut() { *l = *l * 1000 + 7; } }
